@@ -333,6 +333,13 @@ impl Task {
 
             if self.id == TASK_ROOT_TID {
                 self.proc().set_state(state.clone());
+                // the process ends with the error of its root task; it has to be known before the
+                // root's last event writes the process row
+                if state.is_error() {
+                    if let Some(err) = self.err() {
+                        self.proc().set_pure_err(&err);
+                    }
+                }
             }
         } else if state.is_created() {
             self.set_start_time(utils::time::time_millis());
